@@ -22,7 +22,18 @@ func Fe(v *big.Int) *field.Element {
 }
 
 // FeInt reads a field element back through Bytes().
-func FeInt(fe *field.Element) *big.Int { return ref.Int(fe.Bytes()) }
+func FeInt(fe *field.Element) *big.Int { return readAndScribble(fe.Bytes()) }
+
+// readAndScribble converts an encoding the library handed out and then overwrites it: the slice is the caller's, so
+// nothing the library does later may depend on its content (an encoding cached inside the object and handed out
+// without a copy would read back wrong the next time).
+func readAndScribble(b []byte) *big.Int {
+	v := ref.Int(b)
+	for i := range b {
+		b[i] ^= 0x5a + byte(i)
+	}
+	return v
+}
 
 // Sc builds a scalar from v in [0,n).
 func Sc(v *big.Int) *secp256k1.Scalar {
@@ -34,7 +45,7 @@ func Sc(v *big.Int) *secp256k1.Scalar {
 }
 
 // ScInt reads a scalar back through Bytes().
-func ScInt(s *secp256k1.Scalar) *big.Int { return ref.Int(s.Bytes()) }
+func ScInt(s *secp256k1.Scalar) *big.Int { return readAndScribble(s.Bytes()) }
 
 // Pt builds a library point from a reference point through the strict
 // uncompressed decoder (or NewIdentityPoint).
@@ -52,7 +63,12 @@ func Pt(p ref.Pt) *secp256k1.Point {
 // PtRef reads a library point back through UncompressedBytes and the
 // reference strict decoder.  ok=false if the encoding does not decode.
 func PtRef(p *secp256k1.Point) (ref.Pt, bool) {
-	return ref.DecodePoint(p.UncompressedBytes())
+	b := p.UncompressedBytes()
+	q, ok := ref.DecodePoint(b)
+	for i := range b {
+		b[i] ^= 0x5a + byte(i)
+	}
+	return q, ok
 }
 
 // Catch runs f and returns the recovered panic value (nil if none).
